@@ -177,6 +177,12 @@ impl Check for Timelock {
     fn components(&self) -> serde_json::Value {
         serde_json::json!({"real": ["stellar_governance::timelock::* behind a bare wrapper"], "stub": ["Target (call counter, scripted trap)"]})
     }
+    fn dup_ok(&self, _s: &Step) -> bool {
+        true
+    }
+    fn reorder_ok(&self) -> bool {
+        true
+    }
     fn generate(&self, rng: &mut Rng, tier: Tier) -> (Cfg, std::vec::Vec<Step>) {
         let nops = 3 + rng.below(5) as usize;
         let mut ops = vec![];
